@@ -279,6 +279,10 @@ def make_world(rng):
             for vname, body in (("layer_ok", body_ok), ("layer_bad", body_bad), ("layer_alt", (alt or [body_bad])[0])):
                 add("macro", vname, {"macros": [inner(body)], "pattern": [items[0], "@outer", items[2]]}, li, macros=[d_mac + "m_layer.yaml"])
                 add("macro", vname + "2", {"macros": [inner(body)], "pattern": ["@outer2", items[2]]}, li, macros=[d_mac + "m_layer.yaml"])
+            # a caller that passes all its libraries to every rule: each rule needs only one of them
+            all_libs = [d_mac + "m_ok.yaml", d_mac + "m_args.yaml"]
+            add("macro", "alllibs_mm", {"pattern": copy.deepcopy(pat)}, li, macros=list(all_libs))
+            add("macro", "alllibs_pm", {"pattern": [{"@pm": None, "marg1": "rax"}, {"$not": ["fxsave"]}, {"@pm": None, "marg1": "rbx"}]}, li, macros=list(all_libs))
 
     # ---- files with the same names beside the rules: what a lookup relative to the rule's directory
     #      (instead of the working directory) would pick up
